@@ -745,6 +745,10 @@ remap_indices(int first_index, IndexRemapper &remap) {
  */
 void InterrogateDatabase::
 write_text(std::ostream &out) const {
+  // Make sure the databases that have been requested are part of what we
+  // write, as they are part of what every query sees.
+  ((InterrogateDatabase *)this)->check_latest();
+
   // Write out the file header.
   out << "version: " << _current_major_version << "." << _current_minor_version << "\n\n";
 
@@ -890,6 +894,10 @@ write_text(std::ostream &out) const {
  */
 void InterrogateDatabase::
 write(std::ostream &out, InterrogateModuleDef *def) const {
+  // Make sure the databases that have been requested are part of what we
+  // write, as they are part of what every query sees.
+  ((InterrogateDatabase *)this)->check_latest();
+
   // Write out the file header.
   out << def->file_identifier << "\n"
       << _current_major_version << " " << _current_minor_version << "\n";
